@@ -191,7 +191,9 @@ theorem accepted_ends_with_end_of_sequence (cfg : Config) :
     unfold run at h
     split at h
     · rename_i hl; exact Or.inl ⟨rfl, by simpa using hl⟩
-    · cases h
+    · cases hc : checkLastNext s with
+      | ok _ => rw [hc] at h; cases h
+      | error v => rw [hc] at h; exact absurd h (toVerdict_ne_ok v)
   | cons u rest ih =>
     intro s h
     rw [run_cons] at h
